@@ -262,10 +262,12 @@ class Geometry(DaeObject):
                 new_source = vert_sources[0]
             input_vnode.set('source', '#' + new_source)
             vnode.set('id', new_source + '-vertices')
-        elif vert_ref not in self.sourceById and len(vert_sources) == 0 and len(sources) > 0:
+        elif vert_ref not in self.sourceById and len(vert_sources) == 0 and \
+                any(src.id is not None for src in sources):
             # the source <vertices> used is gone and no primitive says which one to use instead
-            input_vnode.set('source', '#' + sources[0].id)
-            vnode.set('id', sources[0].id + '-vertices')
+            first = [src for src in sources if src.id is not None][0]
+            input_vnode.set('source', '#' + first.id)
+            vnode.set('id', first.id + '-vertices')
 
         # sets loaded from strips or fans are written as plain triangles
         for prim in self.primitives:
